@@ -91,7 +91,7 @@ fn text_mutants(r: &mut Rng, b: &[u8], json: bool, n: usize, out: &mut Vec<Mutan
 }
 
 fn build_inputs(tier: &str, r: &mut Rng) -> Vec<Input> {
-    let scale = if tier == "thorough" { 8 } else { 1 };
+    let scale = if tier == "thorough" { 5 } else { 1 };
     let mut inputs: Vec<Input> = Vec::new();
     // ---- Arrow IPC file / stream / decoder
     for stream in [false, true] {
